@@ -402,7 +402,7 @@ static void run_C11()
     std::vector<int> fns;
     for (int fn = 0; fn <= FN_POW; ++fn)
         fns.push_back(fn);
-    plan_generated<double>("C11", fns, budget(128, 8192)); // 5.2e5 (quick) / 3.4e7 (thorough) arguments per function per arch
+    plan_generated<double>("C11", fns, budget(1024, 16384)); // 4.2e6 (quick) / 6.7e7 (thorough) arguments per function per arch
 }
 
 // ============================================================================ C12: specials, symmetries, identities
